@@ -442,6 +442,48 @@ def run(ctx):
                      "struct xcm_addr_host.name for %d: %s" % (Kd, doc, "valid names are refused by the parsers although the makers produce them" if Kd < doc else
                      "the parsers accept names the public record cannot hold"), loc=dv.file)
 
+    # ------------------------------------------------------------------ R9
+    # make and parse are inverses: what a maker prints for a number, the parser must read back as the same number.  A
+    # conversion that narrows its argument (%hd of a uint16_t port prints 32768..65535 as negative numbers, which no
+    # parser accepts) breaks that for half the range.  Every integer conversion of the makers' format strings must be
+    # able to print every value of its argument's own type.
+    r9 = ctx.rule("C12.R9", "the makers print numbers with a conversion that holds every value of the argument's type")
+    nconv = 0
+    for f in P.fns_in("core/xcm_addr.c"):
+        for c in list(f.calls("snprintf")) + list(f.calls("sprintf")):
+            args = f.nodes[c]["args"]
+            fi = [i for i, a in enumerate(args) if f.sn(a)["k"] == "str"]
+            if not fi:
+                continue
+            fmt = f.sn(args[fi[0]]).get("v") or ""
+            rest = args[fi[0] + 1:]
+            k = 0
+            for m in re.finditer(r"%([-+ #0]*)(\*|\d+)?(?:\.(\*|\d+))?(hh|h|ll|l|j|z|t|L)?([diouxXcsp%])", fmt):
+                if m.group(5) == "%":
+                    continue
+                k += (m.group(2) == "*") + (m.group(3) == "*")
+                if k >= len(rest):
+                    break
+                a = f.sn(rest[k])
+                k += 1
+                if m.group(5) not in "diouxX":
+                    continue
+                nconv += 1
+                r9.instance("%s: %%%s%s <- %s" % (f.qname, m.group(4) or "", m.group(5), f.show(a["id"])[:30]))
+                asz, auns = a.get("sz") or 4, bool(a.get("uns"))
+                csz = {"hh": 1, "h": 2, None: 4, "l": 8, "ll": 8, "j": 8, "z": 8, "t": 8}.get(m.group(4), 4)
+                cuns = m.group(5) in "ouxX"
+                # bits the conversion can show vs. bits the argument's type can hold
+                fits = csz > asz or (csz == asz and cuns == auns)
+                if fits:
+                    r9.ok("%s: %%%s%s prints every %s" % (f.name, m.group(4) or "", m.group(5), a.get("t")), "type ranges")
+                else:
+                    r9.violation("%s:conversion-narrows:%s%s" % (f.name, m.group(4) or "", m.group(5)), "%s prints a %s with %%%s%s: values the conversion's type cannot hold come out "
+                                 "as other (negative or truncated) numbers, which the parsers and xcm_addr_is_valid refuse - make and parse are no longer inverses"
+                                 % (f.name, a.get("t"), m.group(4) or "", m.group(5)), loc=f.loc(c))
+    if nconv < 3:
+        raise Broken("C12.R9: only %d integer conversions in the makers' format strings" % nconv)
+
     # ------------------------------------------------------------------ R7
     # "accept only the documented syntax": no white space anywhere in an address.  White space is what isspace() says
     # (space, \\t, \\n, \\v, \\f, \\r) - the predicate that guards every parser either uses isspace on every character or
